@@ -19,6 +19,9 @@ type MethodCase struct {
 	APISecurity *Security
 	// Own forces the case into a service (and design) of its own
 	Own bool
+	// SvcPath/SvcPaths: HTTP base path(s) of the service (only with Own)
+	SvcPath  string
+	SvcPaths []string
 }
 
 // TypeMenu is the L1 type alphabet: name -> (type, needed definitions).
@@ -331,6 +334,12 @@ func Pack(cases []MethodCase, perService, perDesign int, family string) []*Spec 
 				cur.Schemes = append(cur.Schemes, sc)
 			}
 		}
+		if mc.SvcPath != "" {
+			svc.Path = mc.SvcPath
+		}
+		if len(mc.SvcPaths) > 0 {
+			svc.Paths = mc.SvcPaths
+		}
 		if mc.SvcSecurity != nil {
 			svc.Security = mc.SvcSecurity
 		}
@@ -416,6 +425,10 @@ func validMenu() []validEntry {
 		{"minlen_bytes", P(KBytes), &Valid{MinLen: I(2)}},
 		{"pattern_string", P(KString), &Valid{Pattern: "^[a-c]+$"}},
 		{"pattern2_string", P(KString), &Valid{Pattern: "[0-9]{2}"}},
+		// degenerate ranges: lower bound == upper bound (exactly one length / one value)
+		{"eqlen_string", P(KString), &Valid{MinLen: I(2), MaxLen: I(2)}},
+		{"eq_int", P(KInt), &Valid{Min: F(3), Max: F(3)}},
+		{"eq_float64", P(KFloat64), &Valid{Min: F(2.5), Max: F(2.5)}},
 	}
 	for _, f := range Formats() {
 		out = append(out, validEntry{"format_" + f, P(KString), &Valid{Format: f}})
@@ -507,6 +520,13 @@ func L1Validation(side string, thorough bool) []MethodCase {
 		add(A("aa", WithV(ArrT(P(KString)), &Valid{MinLen: I(1)})), loc, true, nil, map[string]string{"valid": "minlen_array", "pos": "attribute"})
 		add(A("aa", WithV(ArrT(P(KInt)), &Valid{MaxLen: I(2)})), loc, false, nil, map[string]string{"valid": "maxlen_array", "pos": "attribute"})
 	}
+	for _, loc := range []string{LocQuery, LocBody} {
+		if side == "result" && loc == LocQuery {
+			continue
+		}
+		add(A("aa", WithV(ArrT(P(KString)), &Valid{MinLen: I(2), MaxLen: I(2)})), loc, true, nil, map[string]string{"valid": "eqlen_array", "pos": "attribute"})
+	}
+	add(A("aa", WithV(MapT(P(KString), P(KInt)), &Valid{MinLen: I(1), MaxLen: I(1)})), LocBody, false, nil, map[string]string{"valid": "eqlen_map", "pos": "attribute"})
 	add(A("aa", WithV(MapT(P(KString), P(KInt)), &Valid{MinLen: I(1)})), LocBody, true, nil, map[string]string{"valid": "minlen_map", "pos": "attribute"})
 	add(A("aa", WithV(MapT(P(KString), P(KInt)), &Valid{MaxLen: I(1)})), LocBody, false, nil, map[string]string{"valid": "maxlen_map", "pos": "attribute"})
 	// conflicting levels: alias bound and attribute bound both apply (conjunction)
@@ -517,6 +537,13 @@ func L1Validation(side string, thorough bool) []MethodCase {
 		}
 		add(A("aa", WithV(User("AliasMin"), &Valid{Max: F(5)})), loc, true, []*TypeDef{aliasMin}, map[string]string{"valid": "alias_min+attr_max", "pos": "alias+attribute"})
 		add(A("aa", WithV(User("AliasMin"), &Valid{Min: F(1)})), loc, true, []*TypeDef{aliasMin}, map[string]string{"valid": "alias_min3+attr_min1", "pos": "alias+attribute"})
+	}
+	// inheritance: a type that Extends a base with required attributes and validations and
+	// restates / adds required names in every order (the merged required list must be the union)
+	baseV := &TypeDef{Name: "BaseV", Kind: "type", Attrs: []*Attr{A("id", P(KString)), A("email", WithV(P(KString), &Valid{MinLen: I(3)})), A("age", WithV(P(KInt), &Valid{Min: F(1)}))}, Required: []string{"id", "email"}}
+	for i, reqs := range [][]string{{"name"}, {"id", "name"}, {"email", "name"}, {"name", "id"}, {"name", "email", "id"}, {"age"}, nil} {
+		child := &TypeDef{Name: fmt.Sprintf("ChildV%d", i), Kind: "type", Extend: "BaseV", Attrs: []*Attr{A("name", P(KString))}, Required: reqs}
+		add(A("aa", User(child.Name)), LocBody, true, []*TypeDef{baseV, child}, map[string]string{"valid": "extend-required-" + strings.Join(reqs, "+"), "pos": "extended-type"})
 	}
 	// required checks on nilable and non-nilable types
 	for _, te := range typeMenu(true) {
@@ -833,6 +860,36 @@ func L2Security(thorough bool) []MethodCase {
 			}
 		}
 	}
+	// credential mapping x request body shape: one scheme, method level; the body is given
+	// explicitly (one attribute as the whole body / an explicit attribute list) and the
+	// credential attribute is mapped explicitly or left to goa's implicit mapping
+	for _, one := range []Requirement{{{Scheme: "jwt", Scopes: []string{"s1"}}}, {{Scheme: "oa2", Scopes: []string{"s2"}}}, {{Scheme: "bsc"}}, {{Scheme: "aks"}}, {{Scheme: "akq"}}} {
+		st := &Security{Reqs: []Requirement{one}}
+		for _, body := range []string{"attr:data", "attrs:data"} {
+			for _, mapping := range []string{"explicit", "implicit"} {
+				sch := one[0].Scheme
+				if mapping == "implicit" && sch != "jwt" && sch != "oa2" {
+					continue
+				}
+				name := fmt.Sprintf("m%d", n)
+				n++
+				m := secMethod(name, usedSchemes(st), false)
+				m.Security = st
+				m.HTTP.Body = body
+				if mapping == "implicit" {
+					var keep []Map
+					for _, h := range m.HTTP.Headers {
+						if h.Attr != "tok" && h.Attr != "atok" {
+							keep = append(keep, h)
+						}
+					}
+					m.HTTP.Headers = keep
+				}
+				m.Feat["level"], m.Feat["reqs"], m.Feat["override"], m.Feat["mapping"], m.Feat["body"] = "method", desc(st), "none", mapping, body
+				out = append(out, MethodCase{M: m, Schemes: SecSchemes()})
+			}
+		}
+	}
 	// overrides: service/API level requirement, method overrides with another one or NoSecurity
 	base := &Security{Reqs: []Requirement{red[0]}}
 	other := &Security{Reqs: []Requirement{red[2], red[1]}}
@@ -967,6 +1024,25 @@ func L2Views(thorough bool) []MethodCase {
 				{Name: "full", Attrs: []string{"title", "editor", "author"}, Sub: map[string]string{"author": "full", "editor": "full"}},
 			}}
 		add(User("Article"), []*TypeDef{author, editor, article}, map[string]string{"shape": "identical-sibling-types"})
+	}
+	// a nested result type attribute whose view is given where the attribute is declared in the
+	// type; parent views keep it, override it with another view, or override it back to "default"
+	{
+		owner := &TypeDef{Name: "Owner", Kind: "result",
+			Attrs:    []*Attr{A("id", P(KString)), A("oname", P(KString)), A("ssn", P(KString))},
+			Required: []string{"id"},
+			Views:    []View{{Name: "default", Attrs: []string{"id", "oname"}}, {Name: "full", Attrs: []string{"id", "oname", "ssn"}}, {Name: "tiny", Attrs: []string{"id"}}}}
+		ow := User("Owner")
+		ow.View = "full"
+		account := &TypeDef{Name: "Account", Kind: "result",
+			Attrs:    []*Attr{A("num", P(KString)), A("owner", ow), A("co", User("Owner"))},
+			Required: []string{"num"},
+			Views: []View{
+				{Name: "default", Attrs: []string{"num", "owner", "co"}, Sub: map[string]string{"owner": "default"}},
+				{Name: "keep", Attrs: []string{"num", "owner", "co"}},
+				{Name: "mix", Attrs: []string{"num", "owner", "co"}, Sub: map[string]string{"owner": "tiny", "co": "full"}},
+			}}
+		add(User("Account"), []*TypeDef{owner, account}, map[string]string{"shape": "type-level-attribute-view"})
 	}
 	// collection
 	{
